@@ -272,6 +272,11 @@ func (o *Opts) Matrix() any {
 		s := ordered.NewMap[string, any](2)
 		for i := 1 + r.Intn(3); i > 0; i-- {
 			d := core.Pick(r, []string{"os", "arch", "ver", "go.version", "a-b", "", "arch.", "go..minor", ".hidden"})
+			if r.Intn(10) == 0 {
+				o.hist("matrix.null-dimension")
+				s.Set(d, nil) // a dimension without values
+				continue
+			}
 			s.Set(d, o.strList(3))
 		}
 		s.Range(func(k string, _ any) error { dims = append(dims, k); return nil })
@@ -341,6 +346,11 @@ func (o *Opts) Cache() any {
 	}
 	if r.Intn(3) == 0 {
 		m.Set(o.Key(r), o.Value(1))
+	}
+	if r.Intn(5) == 0 {
+		// the key the Disabled field answers to (its yaml tag has no name, so it is the lower-cased field name)
+		o.hist("cache.disabled-key")
+		m.Set("disabled", r.Intn(3) != 0)
 	}
 	return m
 }
